@@ -1,15 +1,21 @@
 """Contracts for ipp/src/parser.rs"""
 FILE = 'ipp/src/parser.rs'
 
+_ENOUGH = '(b.len() >= 2 && b.len() >= 2 + be16(b) as int + 2 && b.len() >= 2 + be16(b) as int + 2 + be16(b.skip(2).skip(be16(b) as int)) as int)'
+_NAME = 'str_of(lossy(b.skip(2).take(be16(b) as int)))'
+_BODY = 'b.skip(2).skip(be16(b) as int).skip(2).take(be16(b.skip(2).skip(be16(b) as int)) as int)'
+
 _DRIVE_SPEC = """    ensures
-        ({ let b = old(self).reader.rest();
-           &&& r is Ok ==> b.len() >= 8 && scan_rest(b.skip(8)) == Some(final(self).reader.rest())
-                 && (r->Ok_0).version.0 == be16(b) && (r->Ok_0).operation_or_status == be16(b.skip(2))
-                 && (r->Ok_0).request_id == be32(b.skip(4))
-           &&& (b.len() >= 8 && old(self).state.abs() == m_init() && m_run(b.skip(8), m_init()) is Some) ==>
-                 r is Ok && (final(self).state.abs(), final(self).reader.rest()) == m_run(b.skip(8), m_init()).unwrap()
-           &&& old(self).state.sizes() ==> final(self).state.sizes()
-           // total (C05): the outcome is the function t_run of the bytes, for every input
+        c04(r is Ok ==> ({ let b = old(self).reader.rest(); (r->Ok_0).version.0 == be16(b)
+                 && (r->Ok_0).operation_or_status == be16(b.skip(2)) && (r->Ok_0).request_id == be32(b.skip(4)) })),
+        c07(r is Ok ==> ({ let b = old(self).reader.rest(); b.len() >= 8 && scan_rest(b.skip(8)) is Some })),
+        c06(r is Ok ==> ({ let b = old(self).reader.rest(); scan_rest(b.skip(8)) == Some(final(self).reader.rest()) })),
+        c04(({ let b = old(self).reader.rest();
+               (b.len() >= 8 && old(self).state.abs() == m_init() && m_run(b.skip(8), m_init()) is Some) ==>
+                 r is Ok && (final(self).state.abs(), final(self).reader.rest()) == m_run(b.skip(8), m_init()).unwrap() })),
+        c02(old(self).state.sizes() ==> final(self).state.sizes()),
+        // total (C05): the outcome is the function t_run of the bytes, for every input
+        c05(({ let b = old(self).reader.rest();
            &&& b.len() < 8 ==> r is Err
            &&& b.len() >= 8 ==> match t_run(b.skip(8), old(self).state.abs()) {
                  TOut::Ok { s, rest } => r is Ok && final(self).state.abs() == s && final(self).reader.rest() == rest,
@@ -17,50 +23,43 @@ _DRIVE_SPEC = """    ensures
                  TOut::BadColl => r is Err && r->Err_0 is InvalidCollection,
                  TOut::Short => r is Err,
                }
-        }),"""
+        })),"""
 
 _DRIVE_LOOP = """
         invariant_except_break
-            scan_rest(self.reader.rest()) == scan_rest(b0.skip(8)),
+            c06(scan_rest(self.reader.rest()) == scan_rest(b0.skip(8))),
             b0 == old(self).reader.rest(),
-            old(self).state.sizes() ==> self.state.sizes(),
+            c02(old(self).state.sizes() ==> self.state.sizes()),
             wf0 <==> (b0.len() >= 8 && old(self).state.abs() == m_init() && m_run(b0.skip(8), m_init()) is Some),
-            wf0 ==> m_run(self.reader.rest(), self.state.abs()) == m_run(b0.skip(8), m_init()),
+            c04(wf0 ==> m_run(self.reader.rest(), self.state.abs()) == m_run(b0.skip(8), m_init())),
             a0 == old(self).state.abs(),
             b0.len() >= 8,
-            t_run(self.reader.rest(), self.state.abs()) == t_run(b0.skip(8), a0),
+            c05(t_run(self.reader.rest(), self.state.abs()) == t_run(b0.skip(8), a0)),
         ensures
-            t_run(b0.skip(8), a0) == (TOut::Ok { s: self.state.abs(), rest: self.reader.rest() }),
-            Some(self.reader.rest()) == scan_rest(b0.skip(8)),
-            wf0 ==> Some((self.state.abs(), self.reader.rest())) == m_run(b0.skip(8), m_init()),
-            old(self).state.sizes() ==> self.state.sizes(),
+            c05(t_run(b0.skip(8), a0) == (TOut::Ok { s: self.state.abs(), rest: self.reader.rest() })),
+            c06(Some(self.reader.rest()) == scan_rest(b0.skip(8))),
+            c04(wf0 ==> Some((self.state.abs(), self.reader.rest())) == m_run(b0.skip(8), m_init())),
+            c02(old(self).state.sizes() ==> self.state.sizes()),
         decreases self.reader.rest().len(),
 """
 
 _PV_SPEC = """    ensures
-        ({ let b = old(self).reader.rest();
-           &&& r is Ok ==> b.len() >= 2 && b.len() >= 2 + be16(b) as int + 2
-                 && b.len() >= 2 + be16(b) as int + 2 + be16(b.skip(2).skip(be16(b) as int)) as int
-                 && final(self).reader.rest() == b.skip(2).skip(be16(b) as int).skip(2).skip(be16(b.skip(2).skip(be16(b) as int)) as int)
-           &&& (b.len() >= 2 && b.len() >= 2 + be16(b) as int + 2
-                 && b.len() >= 2 + be16(b) as int + 2 + be16(b.skip(2).skip(be16(b) as int)) as int
-                 && m_value_legal(old(self).state.abs(), tag, str_of(lossy(b.skip(2).take(be16(b) as int))),
-                                  b.skip(2).skip(be16(b) as int).skip(2).take(be16(b.skip(2).skip(be16(b) as int)) as int)))
-               ==> r is Ok && final(self).state.abs() == m_value(old(self).state.abs(), tag, str_of(lossy(b.skip(2).take(be16(b) as int))),
-                                  b.skip(2).skip(be16(b) as int).skip(2).take(be16(b.skip(2).skip(be16(b) as int)) as int))
-           &&& old(self).state.sizes() ==> final(self).state.sizes()
-           // total (C05)
-           &&& !(b.len() >= 2 && b.len() >= 2 + be16(b) as int + 2
-                 && b.len() >= 2 + be16(b) as int + 2 + be16(b.skip(2).skip(be16(b) as int)) as int) ==> r is Err
-           &&& (b.len() >= 2 && b.len() >= 2 + be16(b) as int + 2
-                 && b.len() >= 2 + be16(b) as int + 2 + be16(b.skip(2).skip(be16(b) as int)) as int) ==>
-               match t_value(old(self).state.abs(), tag, str_of(lossy(b.skip(2).take(be16(b) as int))),
-                             b.skip(2).skip(be16(b) as int).skip(2).take(be16(b.skip(2).skip(be16(b) as int)) as int)) {
+        c07(r is Ok ==> ({ let b = old(self).reader.rest(); ENOUGH })),
+        c06(r is Ok ==> ({ let b = old(self).reader.rest();
+                 final(self).reader.rest() == b.skip(2).skip(be16(b) as int).skip(2).skip(be16(b.skip(2).skip(be16(b) as int)) as int) })),
+        c04(({ let b = old(self).reader.rest();
+               (ENOUGH && m_value_legal(old(self).state.abs(), tag, NAME, BODY))
+               ==> r is Ok && final(self).state.abs() == m_value(old(self).state.abs(), tag, NAME, BODY) })),
+        c02(old(self).state.sizes() ==> final(self).state.sizes()),
+        // total (C05)
+        c05(({ let b = old(self).reader.rest();
+           &&& !ENOUGH ==> r is Err
+           &&& ENOUGH ==> match t_value(old(self).state.abs(), tag, NAME, BODY) {
                  TStep::Ok { s } => r is Ok && final(self).state.abs() == s,
                  TStep::BadColl => r is Err && r->Err_0 is InvalidCollection,
                  TStep::Short => r is Err,
                }
-        }),"""
+        })),""".replace('ENOUGH', _ENOUGH).replace('NAME', _NAME).replace('BODY', _BODY)
 
 
 def _front(ty):
@@ -75,40 +74,37 @@ def _front(ty):
                      'text': 'let ghost b0 = old(self).reader.rest(); let ghost a0 = old(self).state.abs(); let ghost wf0 = b0.len() >= 8 && old(self).state.abs() == m_init() && m_run(b0.skip(8), m_init()) is Some;'}]},
         {'op': 'fn', 'path': f'{ty}::parse_parts', 'ret': 'r', 'w9_mut_self': True,
          'spec': """    ensures
-        ({ let b = self.rest();
-           &&& r is Ok ==> b.len() >= 8 && scan_rest(b.skip(8)) == Some((r->Ok_0).2.rest())
-                 && (r->Ok_0).0.version.0 == be16(b) && (r->Ok_0).0.operation_or_status == be16(b.skip(2))
-                 && (r->Ok_0).0.request_id == be32(b.skip(4))
-           &&& (self.fresh() && m_message(b) is Some) ==> r is Ok
+        c04(r is Ok ==> ({ let b = self.rest(); (r->Ok_0).0.version.0 == be16(b) && (r->Ok_0).0.operation_or_status == be16(b.skip(2))
+                 && (r->Ok_0).0.request_id == be32(b.skip(4)) })),
+        c07(r is Ok ==> ({ let b = self.rest(); b.len() >= 8 && scan_rest(b.skip(8)) is Some })),
+        c06(r is Ok ==> ({ let b = self.rest(); scan_rest(b.skip(8)) == Some((r->Ok_0).2.rest()) })),
+        c04(({ let b = self.rest(); (self.fresh() && m_message(b) is Some) ==> r is Ok
                  && (r->Ok_0).1.sgroups().map_values(|g: IppAttributeGroup| abs_mgroup(g)) == m_message(b).unwrap().0
-                 && (r->Ok_0).2.rest() == m_message(b).unwrap().1
-           &&& (self.sizes_ok() && r is Ok) ==> groups_sizes((r->Ok_0).1.sgroups())
-           // total (C05): for every input the outcome is the function t_message of the bytes
-           &&& self.fresh() ==> match t_message(b) {
+                 && (r->Ok_0).2.rest() == m_message(b).unwrap().1 })),
+        c02((self.sizes_ok() && r is Ok) ==> groups_sizes((r->Ok_0).1.sgroups())),
+        // total (C05): for every input the outcome is the function t_message of the bytes
+        c05(({ let b = self.rest(); self.fresh() ==> match t_message(b) {
                  TOut::Ok { s, rest } => r is Ok && (r->Ok_0).1.sgroups().map_values(|g: IppAttributeGroup| abs_mgroup(g)) == s.groups
                                           && (r->Ok_0).2.rest() == rest,
                  TOut::BadTag { tag } => r is Err && r->Err_0 is InvalidTag && r->Err_0->InvalidTag_0 == tag,
                  TOut::BadColl => r is Err && r->Err_0 is InvalidCollection,
                  TOut::Short => r is Err,
-               }
-        }),"""},
+               } })),"""},
         {'op': 'fn', 'path': f'{ty}::parse', 'ret': 'r', 'w9_mut_self': True,
          'spec': """    ensures
-        ({ let b = self.rest();
-           &&& r is Ok ==> b.len() >= 8 && scan_rest(b.skip(8)) is Some
-                 && (r->Ok_0).shdr().version.0 == be16(b) && (r->Ok_0).shdr().operation_or_status == be16(b.skip(2))
-                 && (r->Ok_0).shdr().request_id == be32(b.skip(4))
-           &&& (self.fresh() && m_message(b) is Some) ==> r is Ok
-                 && (r->Ok_0).sattrs().sgroups().map_values(|g: IppAttributeGroup| abs_mgroup(g)) == m_message(b).unwrap().0
-           &&& (self.sizes_ok() && r is Ok) ==> groups_sizes((r->Ok_0).sattrs().sgroups())
-           // total (C05)
-           &&& self.fresh() ==> match t_message(b) {
+        c04(r is Ok ==> ({ let b = self.rest(); (r->Ok_0).shdr().version.0 == be16(b) && (r->Ok_0).shdr().operation_or_status == be16(b.skip(2))
+                 && (r->Ok_0).shdr().request_id == be32(b.skip(4)) })),
+        c07(r is Ok ==> ({ let b = self.rest(); b.len() >= 8 && scan_rest(b.skip(8)) is Some })),
+        c04(({ let b = self.rest(); (self.fresh() && m_message(b) is Some) ==> r is Ok
+                 && (r->Ok_0).sattrs().sgroups().map_values(|g: IppAttributeGroup| abs_mgroup(g)) == m_message(b).unwrap().0 })),
+        c02((self.sizes_ok() && r is Ok) ==> groups_sizes((r->Ok_0).sattrs().sgroups())),
+        // total (C05)
+        c05(({ let b = self.rest(); self.fresh() ==> match t_message(b) {
                  TOut::Ok { s, rest } => r is Ok && (r->Ok_0).sattrs().sgroups().map_values(|g: IppAttributeGroup| abs_mgroup(g)) == s.groups,
                  TOut::BadTag { tag } => r is Err && r->Err_0 is InvalidTag && r->Err_0->InvalidTag_0 == tag,
                  TOut::BadColl => r is Err && r->Err_0 is InvalidCollection,
                  TOut::Short => r is Err,
-               }
-        }),"""},
+               } })),"""},
     ]
 
 
@@ -167,35 +163,35 @@ impl ParserState {
 } // verus!'''},
     {'op': 'item_attr', 'item': 'enum IppParseError', 'text': '#[verifier::external_derive]'},
     {'op': 'fn', 'path': 'list_or_value', 'ret': 'r',
-     'spec': '''    ensures aval(r) == lov(abs_vals(list@)),
-        (forall|j: int| 0 <= j < list@.len() ==> size_ok(aval(#[trigger] list@[j]))) ==> size_ok(aval(r)),'''},
+     'spec': '''    ensures c04(aval(r) == lov(abs_vals(list@))),
+        c02((forall|j: int| 0 <= j < list@.len() ==> size_ok(aval(#[trigger] list@[j]))) ==> size_ok(aval(r))),'''},
     {'op': 'fn', 'path': 'ParserState::new', 'ret': 'r',
-     'spec': '    ensures r.sizes(), ({ let a = r.abs(); let b = m_init(); a.groups =~= b.groups && a.cur =~~= b.cur && a.name == b.name && a.stack =~~= b.stack }),'},
+     'spec': '    ensures c02(r.sizes()), c04(({ let a = r.abs(); let b = m_init(); a.groups =~= b.groups && a.cur =~~= b.cur && a.name == b.name && a.stack =~~= b.stack })),'},
     {'op': 'fn', 'path': 'ParserState::add_last_attribute',
      'proofs': [{'at_start': True, 'text': 'proof { reveal(m_flush); reveal(t_flush); }'}],
      'spec': '''    ensures
-        old(self).sizes() ==> final(self).sizes(),
-        ({ let a = final(self).abs(); let b = t_flush(old(self).abs()); a.groups =~= b.groups && a.cur =~~= b.cur && a.name == b.name && a.stack =~~= b.stack }),
-        old(self).abs().stack.len() >= 1 ==> ({ let a = final(self).abs(); let b = m_flush(old(self).abs()); a.groups =~= b.groups && a.cur =~~= b.cur && a.name == b.name && a.stack =~~= b.stack }),'''},
+        c02(old(self).sizes() ==> final(self).sizes()),
+        aux(({ let a = final(self).abs(); let b = t_flush(old(self).abs()); a.groups =~= b.groups && a.cur =~~= b.cur && a.name == b.name && a.stack =~~= b.stack })),
+        c04(old(self).abs().stack.len() >= 1 ==> ({ let a = final(self).abs(); let b = m_flush(old(self).abs()); a.groups =~= b.groups && a.cur =~~= b.cur && a.name == b.name && a.stack =~~= b.stack })),'''},
     {'op': 'fn', 'path': 'ParserState::parse_delimiter', 'ret': 'r',
      'spec': """    ensures
-        r is Ok <==> delimiter_tag_of(tag as int) is Some,
-        r is Ok ==> Some(r->Ok_0) == delimiter_tag_of(tag as int),
-        old(self).sizes() ==> final(self).sizes(),
-        r is Ok && m_delim_legal(old(self).abs()) ==> ({ let a = final(self).abs(); let b = m_delim(old(self).abs(), r->Ok_0); a.groups =~= b.groups && a.cur =~~= b.cur && a.name == b.name && a.stack =~~= b.stack }),
-        r is Ok ==> ({ let a = final(self).abs(); let b = t_delim(old(self).abs(), r->Ok_0); a.groups =~= b.groups && a.cur =~~= b.cur && a.name == b.name && a.stack =~~= b.stack }),""",
+        c04(r is Ok <==> delimiter_tag_of(tag as int) is Some),
+        c04(r is Ok ==> Some(r->Ok_0) == delimiter_tag_of(tag as int)),
+        c02(old(self).sizes() ==> final(self).sizes()),
+        c04(r is Ok && m_delim_legal(old(self).abs()) ==> ({ let a = final(self).abs(); let b = m_delim(old(self).abs(), r->Ok_0); a.groups =~= b.groups && a.cur =~~= b.cur && a.name == b.name && a.stack =~~= b.stack })),
+        aux(r is Ok ==> ({ let a = final(self).abs(); let b = t_delim(old(self).abs(), r->Ok_0); a.groups =~= b.groups && a.cur =~~= b.cur && a.name == b.name && a.stack =~~= b.stack })),""",
      'proofs': [{'at_start': True, 'text': 'proof { reveal(m_flush); reveal(m_delim); reveal(t_delim); reveal(t_flush); }'},
                 {'before': 'let tag = DelimiterTag::from_u8', 'optional': True,
                  'text': 'proof { axiom_delimiter_tag_from(tag as int); }'}]},
     {'op': 'fn', 'path': 'ParserState::parse_value', 'ret': 'r',
      'spec': '''    ensures
-        old(self).sizes() ==> final(self).sizes(),
-        m_value_legal(old(self).abs(), tag, name, buf_seq(&value)) ==> r is Ok && ({ let a = final(self).abs(); let b = m_value(old(self).abs(), tag, name, buf_seq(&value)); a.groups =~= b.groups && a.cur =~~= b.cur && a.name == b.name && a.stack =~~= b.stack }),
-        match t_value(old(self).abs(), tag, name, buf_seq(&value)) {
+        c02(old(self).sizes() ==> final(self).sizes()),
+        c04(m_value_legal(old(self).abs(), tag, name, buf_seq(&value)) ==> r is Ok && ({ let a = final(self).abs(); let b = m_value(old(self).abs(), tag, name, buf_seq(&value)); a.groups =~= b.groups && a.cur =~~= b.cur && a.name == b.name && a.stack =~~= b.stack })),
+        aux(match t_value(old(self).abs(), tag, name, buf_seq(&value)) {
             TStep::Ok { s: b } => r is Ok && ({ let a = final(self).abs(); a.groups =~= b.groups && a.cur =~~= b.cur && a.name == b.name && a.stack =~~= b.stack }),
             TStep::BadColl => r is Err && r->Err_0 is InvalidCollection,
             TStep::Short => r is Err,
-        },''',
+        }),''',
      'loops': {0: {'iter_name': 'it', 'spec': '''
         invariant
             it_rem(it.snapshot@) == arr0,
@@ -241,8 +237,8 @@ impl ParserState {
                 assert(a.stack =~~= s1.stack.update(top, s1.stack[top].push(aval(ipp_value)))); }'''},
          {'before': 'Ok(())', 'optional': True, 'text': '''
         proof { let a = self.abs();
-            if tag == T_ENDCOLLECTION && s1.stack.len() == 1 { assert(a.stack =~~= s1.stack.drop_last()); }
-            if s1.stack.len() == 0 && tag != T_BEGCOLLECTION { assert(a.stack =~~= s1.stack); } }
+            if tag == T_ENDCOLLECTION && s1.stack.len() == 1 { assert(aux(a.stack =~~= s1.stack.drop_last())); }
+            if s1.stack.len() == 0 && tag != T_BEGCOLLECTION { assert(aux(a.stack =~~= s1.stack)); } }
 '''},
      ]},
 ] + _front('IppParser') + _front('AsyncIppParser')
